@@ -374,6 +374,7 @@ def generate(run_seed, deep=False):
             break
     npints_variation(st["npints"], ops)
     errstate_variation(st["errstate"], ops)
+    invalid_calls(st["invalid"], ops)
     G.printoptions_variation(st["printoptions"], ops, at_start_only=False)
     G.bitgen_variation(st["bitgen"], ops)
     G.generator_seed_variation(st["genseed"], ops, lambda r: r.get("op") == "call" and r.get("api") in
@@ -381,6 +382,44 @@ def generate(run_seed, deep=False):
                                 "utils.split_data", "utils.add_edges", "utils.remove_edges") and not r.get("posseed"))
     np_star_faults(st["np_star"], ops)
     return cfg, ops
+
+
+def invalid_calls(f, ops):
+    """Caller errors as fillers: in a third of the runs a few calls of the history are repeated elsewhere with an
+    argument the library rejects (or ought to): a non-integer or absurd number of edges, more targets than variables,
+    ratios that do not sum to one, a negative sample size, a target that is not a variable.  They raise midway like
+    any failed call; decided by a stream of its own, after generation."""
+    r, k = f.random(), f.randint(1, 3)
+    plan = [(f.random(), f.random(), f.random()) for _ in range(3)]
+    calls = [rec for rec in ops if rec.get("op") == "call" and rec.get("arm") is None and not rec.get("fail")
+             and not rec.get("burst") and not rec.get("nd_burst") and rec.get("seed") != "default"]
+    if r >= 0.33 or not calls:
+        return
+    for pick, how, pos in plan[:k]:
+        rec = copy.deepcopy(calls[int(pick * len(calls))])
+        for key in ("sig", "nd", "between_nd", "relayout", "reordered", "posseed", "npints", "on_shared"):
+            rec.pop(key, None)
+        a, api = rec.setdefault("args", {}), rec["api"]
+        if api in ("utils.add_edges", "utils.remove_edges"):
+            a["k"] = [2.0, 1.5, -1, 10 ** 6][int(how * 4)]
+        elif api == "gen.intervention_targets":
+            a.update(size=a["p"] + 1 + int(how * 3), replace=False) if how < 0.5 else a.update(K=0)
+        elif api == "utils.split_data":
+            a["ratios"] = [[0.3, 0.3], [0.5, 0.6], [], [1.5, -0.5]][int(how * 4)]
+        elif api in ("gen.dag_avg_deg", "gen.dag_full"):
+            a["p"] = [0, -1, 2.5][int(how * 3)]
+        elif api in ("lganm.sample", "nd.sample", "anm.sample"):
+            if how < 0.5 or api == "nd.sample":
+                a["n"] = -1 - int(how * 3)
+            elif api == "lganm.sample":
+                a["do"] = [[spec_p(rec["m"]) + int(how * 3), [0.0, 1.0]]]
+            else:
+                a["do"] = [[spec_p(rec["m"]) + int(how * 3), ["noise.normal", 0, 1]]]
+        else:
+            continue
+        rec["fail"] = "call.invalid"
+        rec["c"] = 0
+        ops.insert(int(pos * (len(ops) + 1)), rec)
 
 
 def errstate_variation(f, ops):
